@@ -19,6 +19,12 @@ def run(chk, repo, tier):
     chk.clause('C05-b', 'FFT path is orthonormal and transforms the field embedded in zeros (scratch region zeroed first)', 5)
     chk.clause('C05-c', 'intensity is never negative: |.|^2-derived values accumulated into zeros', 3)
     chk.clause('C05-d', 'normalize_power: c^2 * sum|array|^2 = power', 1)
+    chk.clause('C05-o', 'combining and reading out fields leaves them untouched (a second read-out gives the same energy)', 3)
+    from .common import operands_untouched
+    operands_untouched(chk, repo, 'C05-o', ['field.merge', 'field._merge', 'field.reduce', 'wavefront.Wavefront.intensity',
+                                            'wavefront.Wavefront.field', 'propagate.propagate_dft'], allow=[])
+    from .c06 import insert_rules
+    insert_rules(chk, repo, 'C05-c')
     chk.clause('C05-e', 'a masked output window is the bounding box of the mask placed with the floor(n/2) convention: the energy '
                         'reported for a window is that of exactly its samples', 2)
     from . import extent_rules as X
